@@ -147,6 +147,7 @@ def st_from_residual(ex, callee, args, st):
 
 
 STATE_INTRINSICS = {
+    r"(^|::)Box::<.*>::new$": st_clone,
     r"Option::<.*>::(expect|unwrap)$": st_opt_expect,
     r"Option::<.*>::is_some$": st_opt_is(True),
     r"Option::<.*>::is_none$": st_opt_is(False),
